@@ -1,3 +1,83 @@
-import Driver.Common
-/- stub: model driver for C10 not built yet -/
-def main : IO Unit := Driver.lineLoop (fun _ => "unimplemented")
+import Driver.GenVL
+import ThriftVerif.Gen.Fast
+/- model driver for C10: ops FW BL FN FR FO SK of docs/BATCH.md over Gen.Fast.
+   `tv_c10 why` prints the reason of a panic (`panic:index`, `panic:slice`) instead of `panic`. -/
+namespace Driver.C10
+open Gen Gen.Fast Driver.GenVL
+
+def fuel : Nat := 400
+
+def panicStr (why : Bool) (w : Nat) : String :=
+  if why then (if w = 1 then "panic:index" else if w = 2 then "panic:slice" else "panic:overflow") else "panic"
+
+def resStr {α} (why : Bool) (r : FRes α) (f : α → String) : String :=
+  match r with | .ok a => "ok " ++ f a | .err => "err" | .panic w => panicStr why w
+
+/-- canonical form of a wire value: map entries sorted by encoded key (what refcodec.Canon does) -/
+partial def canonW : Wire.WVal → Wire.WVal
+  | .struct fs => .struct (fs.map fun (i, v) => (i, canonW v))
+  | .list t xs => .list t (xs.map canonW)
+  | .set t xs => .set t (xs.map canonW)
+  | .map k v kvs =>
+      let es := kvs.map fun (a, b) => (canonW a, canonW b)
+      let keyed := es.map fun (a, b) => (VL.hexEncode (Wire.encW a), (a, b))
+      let sorted := keyed.foldr (fun x acc => ins x acc) []
+      .map k v (sorted.map (·.2))
+  | w => w
+where ins (x : String × (Wire.WVal × Wire.WVal)) : List (String × (Wire.WVal × Wire.WVal)) → List (String × (Wire.WVal × Wire.WVal))
+  | [] => [x]
+  | y :: r => if x.1 ≤ y.1 then x :: y :: r else y :: ins x r
+
+/-- canonical bytes of an encoded struct (maps sorted); malformed bytes are shown as they are -/
+def canonBytes (bs : Bytes) : String :=
+  match Wire.decW 200 .struct bs with
+  | some (w, []) => VL.hexEncode (Wire.encW (canonW w))
+  | _ => "malformed:" ++ VL.hexEncode bs
+
+def step (why : Bool) (ps : Progs) (line : String) : Progs × String :=
+  let toks := VL.toks line
+  match schemaLine ps toks with
+  | some r => r
+  | none =>
+    match toks with
+    | "FW" :: key :: rest =>
+      match splitKey key with
+      | some (u, i) => match ps.get u, parseVal rest with
+        | some P, some (v, []) => (ps, resStr why (fastWrite P fuel i v) canonBytes)
+        | _, _ => (ps, "bad-op")
+      | none => (ps, "bad-op")
+    | "FN" :: key :: rest =>
+      match splitKey key with
+      | some (u, i) => match ps.get u, parseVal rest with
+        | some P, some (v, []) => (ps, resStr why (fastWriteInto P fuel i v) canonBytes)
+        | _, _ => (ps, "bad-op")
+      | none => (ps, "bad-op")
+    | "BL" :: key :: rest =>
+      match splitKey key with
+      | some (u, i) => match ps.get u, parseVal rest with
+        | some P, some (v, []) => (ps, resStr why (blength P fuel i v) toString)
+        | _, _ => (ps, "bad-op")
+      | none => (ps, "bad-op")
+    | ["FR", key, hex] =>
+      match splitKey key with
+      | some (u, i) => match ps.get u, VL.hexDecode hex with
+        | some P, some bs => (ps, resStr why (fastRead P i bs) fun (v, _) => showVal P (.struct i) v)
+        | _, _ => (ps, "bad-op")
+      | none => (ps, "bad-op")
+    | ["FO", key, hex] =>
+      match splitKey key with
+      | some (u, i) => match ps.get u, VL.hexDecode hex with
+        | some P, some bs => (ps, resStr why (fastRead P i bs) fun (_, n) => toString n)
+        | _, _ => (ps, "bad-op")
+      | none => (ps, "bad-op")
+    | ["SK", t, hex] =>
+      match t.toNat?, VL.hexDecode hex with
+      | some t, some bs => (ps, resStr why (Gopkg.skip t bs) toString)
+      | _, _ => (ps, "bad-op")
+    | _ => (ps, "bad-op")
+
+end Driver.C10
+
+def main (args : List String) : IO UInt32 := do
+  Driver.stateLoop ([] : Driver.GenVL.Progs) (Driver.C10.step (args.contains "why"))
+  return 0
